@@ -10,7 +10,7 @@ use std::collections::BTreeMap;
 pub struct C10;
 
 /// macro bodies with binder placeholders @B@ (first binder) and @C@ (second binder)
-const MACROS: [(&str, &str); 9] = [
+const MACROS: [(&str, &str); 11] = [
     ("fn m(e) {\n  `{\n    let @B@ = 10.0\n    $e + @B@\n  }\n}\n", "let binder"),
     ("fn m(e) {\n  `{\n    let f = |@B@| $e + @B@\n    f(10.0)\n  }\n}\n", "lambda parameter"),
     ("fn m(e) {\n  `{\n    let (@B@, @C@) = (10.0, 20.0)\n    $e + @B@ + @C@\n  }\n}\n", "tuple pattern"),
@@ -22,6 +22,10 @@ const MACROS: [(&str, &str); 9] = [
     // the wrapper idiom: the initialiser of a (non-recursive) let-bound lambda calls the outer function w; when the
     // binder is itself named w it shadows w only after the let
     ("fn m(e) {\n  `{\n    let @B@ = |n| if (n > 0.5) w(n - 1.0) + 1.0 else $e\n    @B@(3.0)\n  }\n}\n", "lambda-let whose initialiser calls an outer function"),
+    // a quoted recursive function whose only recursive reference is produced by a helper macro that receives the quoted
+    // name of the function (an escape containing a nested quotation), and the same with a direct reference next to it
+    ("fn m(e) {\n  `{\n    letrec @B@ = |k| { if (k > 0.0) { step!(`@B@, `k) } else { $e } }\n    @B@(3.0)\n  }\n}\n", "letrec whose recursive reference is passed quoted to a helper macro"),
+    ("fn m(e) {\n  `{\n    letrec @B@ = |k| { if (k > 0.0) { $(step(`@B@, `k)) + 0.0 } else { $e } }\n    let @C@ = @B@(2.0)\n    @C@\n  }\n}\n", "letrec whose recursive reference sits in a spliced helper call"),
 ];
 /// argument expressions (stage-1 code) mentioning every interesting name
 const ARGS: [&str; 9] = ["`t", "`u", "`(t + u)", "`x", "`e", "`g", "`1.0", "`f", "`inner"];
@@ -37,7 +41,7 @@ const BINDERS: [(&str, &str); 4] = [("t", "u"), ("e", "x"), ("g", "inner"), ("w"
 const FRESH: (&str, &str) = ("zq9", "zq8");
 
 fn program(mi: usize, b: (&str, &str), ai: usize, si: usize) -> String {
-    format!("fn w(x) {{\n  x * 10.0\n}}\n#stage(macro)\n{}#stage(main)\nlet g = 50.0\n{}", MACROS[mi].0.replace("@B@", b.0).replace("@C@", b.1), SITES[si].0.replace("@A@", ARGS[ai]))
+    format!("fn w(x) {{\n  x * 10.0\n}}\n#stage(macro)\nfn step(f, k) {{\n  `{{ ($f)($k - 1.0) + $k }}\n}}\n{}#stage(main)\nlet g = 50.0\n{}", MACROS[mi].0.replace("@B@", b.0).replace("@C@", b.1), SITES[si].0.replace("@A@", ARGS[ai]))
 }
 // ---------------------------------------------------------------- macros defined inside a module
 // The macro lives in `mod m` (or in `mod m { mod n { .. } }`), next to members whose names the binders of its quoted
@@ -175,7 +179,7 @@ impl Prop for C10 {
         let arg_names: Vec<&str> = ARGS[ai].trim_matches(|c| c == '`' || c == '(' || c == ')').split(|c: char| !c.is_alphanumeric()).filter(|s| !s.is_empty()).collect();
         let body_binds = |n: &str| -> bool {
             let body = MACROS[mi].0.replace("@B@", BINDERS[bi].0).replace("@C@", BINDERS[bi].1);
-            body.contains(&format!("let {n} ")) || body.contains(&format!("|{n}|")) || body.contains(&format!("({n}, ")) || body.contains(&format!(", {n})")) || body.contains(&format!("letrec {n} "))
+            body.contains(&format!("let {n} ")) || body.contains(&format!("|{n}|")) || body.contains(&format!("({n}, ")) || body.contains(&format!(", {n})")) || body.contains(&format!("letrec {n} ")) || body.contains(&format!("|k| {{ if (k > 0.0)")) && n == "k"
         };
         let mut tags = vec![format!("macro:{}", MACROS[mi].1), format!("site:{}", SITES[si].1)];
         if bi == 1 {
